@@ -41,5 +41,9 @@ BaseShapes == [id : {"a", "with/slash", "unicode"}, ver : {0, 1, 1000000000}, ph
                nlabels : {0, 2}, nann : {0, 1}, ts : {"zero", "sec", "nano"}, owner : {"", "ctl"}, size : Sizes, txt : {"plain"}, tv : {0}]
 TextShapes == [id : {"a"}, ver : {1}, phase : {"running"}, nfins : {1}, nlabels : {2}, nann : {1}, ts : {"sec"}, owner : {"ctl"}, size : {"small"},
                txt : {"null", "bool", "num", "struct", "blank"}, tv : 0..3]
-Shapes == BaseShapes \cup TextShapes
+(* generic: a resource of a type that is NOT registered travels as a generic protobuf resource whose spec has one (YAML) or two *)
+(* (YAML and protobuf bytes) representations; both have to survive every stacking of the store marshalers                      *)
+GenericShapes == [id : {"a", "unicode"}, ver : {1}, phase : {"running"}, nfins : {1}, nlabels : {2}, nann : {1}, ts : {"sec", "nano"}, owner : {"ctl"},
+                  size : {"small"}, txt : {"generic-yaml", "generic-both"}, tv : {0}]
+Shapes == BaseShapes \cup TextShapes \cup GenericShapes
 =============================================================================
